@@ -119,6 +119,25 @@ Section Machine.
     forall f, In f (files Example) -> fskip f = true.
 End Machine.
 
+(* The same machine when every invocation runs in its own ambient setting (time zone,
+   locale, environment, working directory, machine): the generators are given the setting. *)
+Section Ambient.
+  Variable A : Type.
+  Variable filesA : A -> cmd -> list file.
+  Variable fin : path -> content -> content.
+
+  Fixpoint runA_from (t : nat) (h : list (A * op)) (s : fs) : fs :=
+    match h with
+    | [] => s
+    | (a, o) :: r => runA_from (S t) r (step (filesA a) fin t o s)
+    end.
+
+  Definition runA (h : list (A * op)) (s : fs) : fs := runA_from 1 h s.
+
+  (* what the property asks of the generators: the setting is not an input *)
+  Definition ambient_independent : Prop := forall a b c, filesA a c = filesA b c.
+End Ambient.
+
 (* ---------------------------------------------------------------- map iteration shapes *)
 
 (* A Go map is a list of entries with pairwise distinct keys; `range` visits them in an
